@@ -170,6 +170,43 @@ struct BodyFilterAction {
     rule_id: Option<String>,
 }
 
+/// Constructors / accessors for the proof harnesses only (the fields are private and the only real
+/// constructor, from_route_rule, needs a whole Route<Rule>, which is too heavy for the model checker).
+#[cfg(kani)]
+impl Action {
+    pub fn verif_from_parts(
+        status_code_update: Option<StatusCodeUpdate>,
+        log_override: Option<LogOverride>,
+        header_filters: Vec<(HeaderFilter, Vec<u16>, bool, Option<String>)>,
+        rule_traces: Vec<(String, Vec<u16>, bool)>,
+    ) -> Action {
+        Action {
+            status_code_update,
+            header_filters: header_filters
+                .into_iter()
+                .map(|(filter, on_response_status_codes, exclude_response_status_codes, rule_id)| HeaderFilterAction {
+                    filter,
+                    on_response_status_codes,
+                    exclude_response_status_codes,
+                    rule_id,
+                })
+                .collect(),
+            body_filters: Vec::new(),
+            rule_ids: LinkedHashSet::new(),
+            rule_traces: rule_traces
+                .into_iter()
+                .map(|(id, on_response_status_codes, exclude_response_status_codes)| RuleTrace {
+                    id,
+                    on_response_status_codes,
+                    exclude_response_status_codes,
+                })
+                .collect(),
+            rules_applied: LinkedHashSet::new(),
+            log_override,
+        }
+    }
+}
+
 impl Default for Action {
     fn default() -> Action {
         Action {
